@@ -102,6 +102,88 @@ def exact_half_turn(chk: core.Check):
                     return
 
 
+def deep_views_and_pivot_kinds(chk: core.Check):
+    """(a) three list levels (events x candidates x tracks), an index-selected / reversed / masked view of an OUTER level taken after the
+    array was built: every track still gets its own single-track result, in the view's nesting;
+    (b) pivots handed over as Vector3D arrays that are not stored as (x, y, z): cylindrical (rho, phi, z), fields zipped in another order -
+    for the helix's own pivot and for the new pivot;
+    (c) closeness test for pairs whose phi0 straddle the 0 / 2 pi wrap: array verdict = record verdict = object verdict."""
+    import warnings
+    import awkward as ak
+    import pybes3
+    rng = np.random.default_rng(chk.seed + 7077)
+    n = 9
+    h = hc.gen(rng, n)
+    lv = [[2, 1, 2], [2, 2, 1, 1, 3]]                       # 3 events; 5 candidates holding 2, 2, 1, 1, 3 tracks
+    arr = hc.impl_arr(h, nest=lv)
+    new = (3.5, -2.25, 1.125)
+    objs = [pybes3.helix_obj(h["dr"][i], h["phi0"][i], h["kappa"][i], h["dz"][i], h["tanl"][i], pivot=tuple(h["piv"][i])).change_pivot(new) for i in range(n)]
+    idx = build(np.arange(n), lv)
+    views = {"[[2, 0, 1]]": (arr[[2, 0, 1]], idx[[2, 0, 1]]), "[::-1]": (arr[::-1], idx[::-1]), "[mask]": (arr[[True, False, True]], idx[[True, False, True]]),
+             "[[1, 1, 0]]": (arr[[1, 1, 0]], idx[[1, 1, 0]]), "[:, ::-1]": (arr[:, ::-1], idx[:, ::-1])}
+    for vname, (v, vi) in views.items():
+        chk.count(1, key=f"deep-view-{vname}")
+        try:
+            res = v.change_pivot(new)
+            ok = ak.to_list(ak.num(res.dr, axis=-1)) == ak.to_list(ak.num(v.dr, axis=-1)) and ak.to_list(ak.num(res.dr, axis=1)) == ak.to_list(ak.num(v.dr, axis=1))
+            want_order = ak.to_numpy(ak.flatten(vi, axis=None))
+            got = ak.to_numpy(ak.flatten(res.dz, axis=None)); gdr = ak.to_numpy(ak.flatten(res.dr, axis=None))
+            ok = ok and len(got) == len(want_order) and all(hc.close(got[j], objs[k].dz, atol=1e-8) and hc.close(gdr[j], objs[k].dr, atol=1e-8) for j, k in enumerate(want_order))
+            obs = {"nesting": ak.to_list(ak.num(res.dr, axis=-1)), "dz": got.tolist()[:9]}
+        except Exception as ex:
+            ok, obs = False, f"{type(ex).__name__}: {str(ex)[:200]}"
+        if not ok:
+            chk.failing_input(f"change_pivot on a view {vname} of an events x candidates x tracks array", {"nesting_counts": lv, "view": vname, "tracks": {k: h[k].tolist() for k in ("dr", "phi0", "kappa", "dz", "tanl")}, "pivots": h["piv"].tolist(), "new_pivot": list(new)},
+                              obs, {"nesting": ak.to_list(ak.num(v.dr, axis=-1)), "dz": [objs[k].dz for k in ak.to_numpy(ak.flatten(vi, axis=None))][:9]},
+                              "each track gives what the single-track object gives; the result does not depend on the order of the tracks nor on how the array is nested; same nesting as the input")
+            return
+    # ---- (b)
+    flat = hc.impl_arr(h)
+    px, py, pz = h["piv"][:, 0], h["piv"][:, 1], h["piv"][:, 2]
+    nx, ny, nz = h["new"][:, 0], h["new"][:, 1], h["new"][:, 2]
+    ref = [pybes3.helix_obj(h["dr"][i], h["phi0"][i], h["kappa"][i], h["dz"][i], h["tanl"][i], pivot=tuple(h["piv"][i])).change_pivot(tuple(h["new"][i])) for i in range(n)]
+    kinds = {
+        "new pivot cylindrical (rho, phi, z)": (flat, ak.zip({"rho": np.hypot(nx, ny), "phi": np.arctan2(ny, nx), "z": nz}, with_name="Vector3D")),
+        "new pivot zipped as (z, x, y)": (flat, ak.zip({"z": nz, "x": nx, "y": ny}, with_name="Vector3D")),
+        "own pivot zipped as (z, y, x)": (pybes3.helix_awk(dr=ak.Array(h["dr"].copy()), phi0=ak.Array(h["phi0"].copy()), kappa=ak.Array(h["kappa"].copy()), dz=ak.Array(h["dz"].copy()), tanl=ak.Array(h["tanl"].copy()),
+                                                           pivot=ak.zip({"z": pz, "y": py, "x": px}, with_name="Vector3D")), ak.zip({"x": nx, "y": ny, "z": nz}, with_name="Vector3D")),
+        "own pivot cylindrical": (pybes3.helix_awk(dr=ak.Array(h["dr"].copy()), phi0=ak.Array(h["phi0"].copy()), kappa=ak.Array(h["kappa"].copy()), dz=ak.Array(h["dz"].copy()), tanl=ak.Array(h["tanl"].copy()),
+                                                   pivot=ak.zip({"rho": np.hypot(px, py), "phi": np.arctan2(py, px), "z": pz}, with_name="Vector3D")), ak.zip({"x": nx, "y": ny, "z": nz}, with_name="Vector3D")),
+    }
+    reg = hc.regular_mask(h)
+    for kname, (a, newp) in kinds.items():
+        chk.count(n, key=f"pivot-kind-{kname}")
+        try:
+            res = a.change_pivot(newp)
+            g = {k: ak.to_numpy(res[k]).astype(float) for k in ("dr", "phi0", "dz")}
+            gp = [ak.to_numpy(res.pivot.x).astype(float), ak.to_numpy(res.pivot.y).astype(float), ak.to_numpy(res.pivot.z).astype(float)]
+            sc = 1 + np.abs(hc.rho(h["kappa"])) + np.abs(h["piv"]).max(axis=1) + np.abs(h["new"]).max(axis=1)
+            bad = [i for i in range(n) if reg[i] and not (hc.close(g["dr"][i], ref[i].dr, atol=1e-8 * sc[i]) and hc.circ_close(g["phi0"][i], ref[i].phi0, 1e-8) and hc.close(g["dz"][i], ref[i].dz, atol=1e-8 * sc[i] * (1 + abs(h["tanl"][i])))
+                                                      and hc.close(gp[0][i], nx[i], atol=1e-9 * sc[i]) and hc.close(gp[1][i], ny[i], atol=1e-9 * sc[i]) and hc.close(gp[2][i], nz[i], atol=1e-9 * sc[i]))]
+            obs = None if not bad else {"dr": float(g["dr"][bad[0]]), "phi0": float(g["phi0"][bad[0]]), "dz": float(g["dz"][bad[0]]), "pivot": [float(gp[c][bad[0]]) for c in range(3)]}
+        except Exception as ex:
+            bad, obs = [0], f"{type(ex).__name__}: {str(ex)[:200]}"
+        if bad:
+            i = bad[0]
+            chk.failing_input(f"change_pivot (array form) with a {kname}", {"helix": {k: float(h[k][i]) for k in ("dr", "phi0", "kappa", "dz", "tanl")}, "pivot": h["piv"][i].tolist(), "new_pivot": h["new"][i].tolist(), "pivot_kind": kname},
+                              obs, {"dr": ref[i].dr, "phi0": ref[i].phi0, "dz": ref[i].dz, "pivot": h["new"][i].tolist()}, "each track gives exactly what the single-track helix object gives (the pivot is a point, however its coordinates are stored)")
+            return
+    # ---- (c)
+    eps = [1e-9, 3e-7, 1e-4]
+    pa = np.array([[0.3, e, -1.2, 0.5, 0.7] for e in eps] + [[0.3, 2 * math.pi - e, -1.2, 0.5, 0.7] for e in eps] + [[0.3, 1.0, -1.2, 0.5, 0.7]])
+    pb = np.array([[0.3, 2 * math.pi - e, -1.2, 0.5, 0.7] for e in eps] + [[0.3, e, -1.2, 0.5, 0.7] for e in eps] + [[0.3, 1.0, -1.2, 0.5, 0.7]])
+    A, B = pybes3.helix_awk(ak.Array(pa)), pybes3.helix_awk(ak.Array(pb))
+    with warnings.catch_warnings():
+        warnings.simplefilter("ignore")
+        va = [bool(x) for x in ak.to_numpy(A.isclose(B))]
+        vr = [bool(A[i].isclose(B[i])) for i in range(len(pa))]
+        vo = [bool(pybes3.helix_obj(*pa[i]).isclose(pybes3.helix_obj(*pb[i]))) for i in range(len(pa))]
+    chk.count(3 * len(pa), key="isclose-straddle")
+    if not (va == vr == vo):
+        chk.failing_input("isclose for pairs whose phi0 straddle the 0 / 2 pi wrap, in object / record / array form", {"phi0_a": pa[:, 1].tolist(), "phi0_b": pb[:, 1].tolist(), "other_parameters": [0.3, -1.2, 0.5, 0.7]},
+                          {"array": va, "record": vr, "object": vo}, "equal verdicts", "the closeness test gives for each track exactly what the single-track helix object gives")
+
+
 def per_track(chk: core.Check, n_lists: int):
     import awkward as ak
     import pybes3
@@ -350,6 +432,8 @@ def main(chk: core.Check) -> int:
             dtype_and_isolation(chk, 600 if thorough else 80)
         if not chk.failing:
             exact_half_turn(chk)
+        if not chk.failing:
+            deep_views_and_pivot_kinds(chk)
     except Exception as ex:
         import traceback
         chk.obligation_broken("correspondence", "per-track harness", f"{type(ex).__name__}: {ex}\n{traceback.format_exc()[-1800:]}")
